@@ -28,9 +28,79 @@ def _leaves_in(node, acc):
     return acc
 
 
+def processor_shapes(tier):
+    """Zero-column / empty / identity chains evaluated through Processor.process (pruning keyed on max_rows / is_trivial)."""
+    X, I, D0 = ("leaf", "X"), ("leaf", "I"), ("leaf", "0")
+    K = ("gt", ("ref", "a"), ("lit", "$k1"))
+    pX0 = ("proj", X, ())
+    progs = [("chain", I, pX0), ("chain", pX0, I), ("chain", ("dedup", pX0), pX0), ("chain", I, I), ("chain", ("dedup", ("proj", ("sel", X, K), ())), pX0),
+             ("chain", D0, X), ("chain", X, D0), ("chain", ("sel", X, ("plit", False)), X), ("dedup", ("chain", I, pX0)),
+             ("chain", ("chain", I, pX0), I), ("slice", ("chain", pX0, I), 0, 1)]
+    return [{"eng": "it1", "prog": p, "params": ({"$k1": [None, None]} if "$k1" in repr(p) else {}), "cons": [], "n": 2, "labels": ["processor"],
+             "processor": True} for p in progs]
+
+
+def run_processor_shape(shape):
+    from .. import symproc
+    from ..prog import pyeval
+
+    prog = shape["prog"]
+
+    def run(ctx, vals=None):
+        env = Env(symbolic=ctx is not None)
+        rows = [{c: (ctx.int(f"X.{c}{i}") if ctx is not None else int(vals.get(f"X.{c}{i}", 0))) for c in "abc"} for i in range(shape["n"])]
+        env.add_iter_leaf("X", "abc", rows, engine="it1")
+        env.add_special_leaf("I", "identity", "it1")
+        env.add_special_leaf("0", "doomed", "it1", ("a", "b", "c"))
+        if ctx is not None:
+            templates.declare(ctx, env, shape["params"], shape["cons"])
+        else:
+            env.bind = templates.bind_concrete(shape["params"], vals)
+        rel = build(prog, env)
+        db = symproc.SymDB(env)
+        log = []
+        out = symproc.make_processor(db, log).process(rel)
+        direct = [dict(r) for r in rel.engine.execute(rel)]
+        processed = [dict(r) for r in out.engine.execute(out)]
+        return env, rel, direct, processed, rows
+
+    def h(ctx):
+        try:
+            env, rel, direct, processed, rows = run(ctx)
+        except Exception as e:  # noqa: BLE001
+            return [("processes and executes", False, {"exc": f"{type(e).__name__}: {e}"[:160]})]
+        ref = sem_seq(prog, env)
+        gz = [{t.qualified_name: zint(v) for t, v in r.items()} for r in processed]
+        return [("rows of the processed tree == direct evaluation", relmodel.seq_equals_list(ref, gz), {"tree": str(rel)}),
+                ("processed row count within [min_rows, max_rows]", (rel.min_rows <= len(processed)) and (rel.max_rows is None or len(processed) <= rel.max_rows), {})]
+
+    res = explore(h, max_paths=1000, wall_s=120)
+    out = res.as_dict()
+    out["shape"] = {"eng": "processor", "prog": fmt(prog)}
+    out["sample"] = {"engine": "iteration + Processor", "program": fmt(prog), "paths": res.paths}
+    for cx in res.cex[:1]:
+        try:
+            env, rel, direct, processed, rows = run(None, cx["model"])
+            exp = pyeval(prog, {"X": [{c: int(cx["model"].get(f"X.{c}{i}", 0)) for c in "abc"} for i in range(shape["n"])], "I": [{}], "0": []},
+                         env.bind, env.tags)
+            got = [{t.qualified_name: v for t, v in r.items()} for r in processed]
+            bad = None if got == exp and rel.min_rows <= len(got) else f"processed rows {got} vs direct evaluation {exp} (bounds [{rel.min_rows}, {rel.max_rows}])"
+        except Exception as e:  # noqa: BLE001
+            bad = f"raises {type(e).__name__}: {e}"[:160]
+        if bad is None:
+            out["status"], out["detail"] = "harness-error", f"counterexample does not reproduce: {fmt(prog)}"
+            return out
+        out["status"] = VIOLATION
+        out["violations"] = [{"site": f"processor:{'>'.join(ops_of(prog))}/short-cut-changes-result", "summary": f"{fmt(prog)}: {bad}",
+                              "replay": {"processor": True, "shape": to_jsonable(shape), "model": cx["model"]}}]
+        return out
+    out["status"] = INCONCLUSIVE if (res.inconclusive or not res.complete) else HOLDS
+    return out
+
+
 def shapes(tier, seed):
     n = 2 if tier == "quick" else 3
-    out = []
+    out = processor_shapes(tier)
     depth = 2 if tier == "quick" else 3
     lab3 = ("slice s:e", "slice s:", "dedup", "sel a>k", "sel false", "proj none", "proj -a", "calc d", "sort a")
 
@@ -95,6 +165,8 @@ def _rename_top(node2, inner):
 
 
 def run_shape(shape, tier):
+    if shape.get("processor"):
+        return run_processor_shape(shape)
     prog = shape["prog"]
     eng = shape["eng"]
     n = shape["n"]
@@ -231,6 +303,11 @@ def concrete_check(prog, eng, rows, decl, bind):
 
 def replay(v):
     r = v["replay"]
+    if r.get("processor"):
+        sh = r["shape"]
+        sh["prog"] = from_jsonable(sh["prog"])
+        out = run_processor_shape(sh)
+        return out["status"] == VIOLATION, str(out.get("violations", [{}])[0].get("summary", "agrees"))
     prog = from_jsonable(r["prog"])
     decl = {k: tuple(x) for k, x in r["decl"].items()}
     fails, symptom, detail = concrete_check(prog, r["eng"], r["rows"], decl, r["bind"])
